@@ -361,6 +361,7 @@ def _is_respecting(
 
     if any(
         (location[e[0]], location[e[1]]) not in model.coupling_graph
+        and (location[e[1]], location[e[0]]) not in model.coupling_graph
         for e in circuit.coupling_graph
     ):
         return False
